@@ -73,6 +73,9 @@ pub fn dn_value_sized(huge: bool) -> impl Strategy<Value = DnValueSpec> {
 		prop_oneof![
 			// inside the alphabet
 			30 => text_for(kind, 10).prop_map(move |text| DnValueSpec::new(kind, text)),
+			// shapes a special case could key on: two-letter (country) codes, the empty string, digits only
+			3 => "[A-Z]{2}|[a-z]{2}|[A-Z][a-z]|[0-9]{1,3}".prop_map(move |text| DnValueSpec::new(kind, text)),
+			1 => Just(DnValueSpec::new(kind, "")),
 			// lengths that cross the short/long form boundaries of DER lengths (127/128, 255/256 octets)
 			1 => (prop::sample::select(sizes), char_for(kind))
 				.prop_map(move |(n, c)| DnValueSpec::new(kind, std::iter::repeat(c).take(n / kind.encode(&c.to_string()).len().max(1) + 1).collect::<String>())),
@@ -221,8 +224,20 @@ fn hostname() -> impl Strategy<Value = String> {
 
 pub fn ia5_text(max: usize) -> BoxedStrategy<String> {
 	prop_oneof![
-		3 => hostname(),
-		2 => text_for(StrKind::Ia5, max),
+		9 => hostname(),
+		6 => text_for(StrKind::Ia5, max),
+		// texts that look like something else: IP literals, the empty string
+		1 => select(vec!["10.0.0.1", "::1", "::", "1.2.3.4", "fe80::1", "255.255.255.255", "::ffff:1.2.3.4", "2001:db8::1", "", "0", "1.2.3"]).prop_map(|s| s.to_string()),
+		// lengths around the short/long form boundaries of DER lengths
+		1 => (select(vec![120usize, 248]), 0usize..14).prop_map(|(n, d)| format!("{}.example", "a".repeat(n + d))),
+	]
+	.boxed()
+}
+
+fn other_name_text() -> BoxedStrategy<String> {
+	prop_oneof![
+		8 => text_for(StrKind::Utf8, 8),
+		1 => (select(vec![118usize, 246]), 0usize..14, char_for(StrKind::Utf8)).prop_map(|(n, d, c)| format!("{}{c}", "n".repeat(n + d))),
 	]
 	.boxed()
 }
@@ -235,7 +250,7 @@ pub fn san(moderate: bool) -> BoxedStrategy<SanSpec> {
 		2 => ia5_text(12).prop_map(|s| SanSpec::Uri(format!("http://{s}"))),
 		1 => text_for(StrKind::Ia5, 12).prop_map(SanSpec::Uri),
 		3 => ip_bytes().prop_map(SanSpec::Ip),
-		2 => (o, text_for(StrKind::Utf8, 8)).prop_map(|(o, t)| SanSpec::OtherName(o, t)),
+		2 => (o, other_name_text()).prop_map(|(o, t)| SanSpec::OtherName(o, t)),
 	]
 	.boxed()
 }
